@@ -16,6 +16,9 @@
 //!                 Engine::trading_summary_generator(..).generate(..)
 //!   c17 replay --scenarios f --out results --seed S
 //!        DataSetSummary::update: every prefix, scales 10^e e in {-9,0,9}, permutations
+//!   c17 random --seed S --steps N --out results   random DECIMAL datasets of mixed magnitude, judged by
+//!   c17 laws --in f --out results                 the laws Stats.tla states and TLC checks on the batch
+//!        definitions (OrderFreeC17, VarNonNeg, MeanInRange, ShiftScale, std_dev^2 = variance)
 //!   c18 replay --scenarios f --out results --seed S
 //!        raw    : DrawdownGenerator + MaxDrawdownGenerator + MeanDrawdownGenerator
 //!        asset  : TearSheetAssetGenerator::{update_from_balance, generate}
@@ -42,6 +45,7 @@ pub fn main_for(prop: &str) {
     match (prop, args.cmd.as_str()) {
         ("C16", "replay") => c16::replay(&args),
         ("C17", "replay") => c17::replay(&args),
+        ("C17", "random") | ("C17", "laws") => c17::laws(&args),
         ("C18", "replay") => c18::replay(&args),
         ("C18", "random") | ("C18", "points") => c18::record(&args),
         (p, c) => usage(&format!("{p}: unknown command {c}")),
@@ -268,6 +272,104 @@ mod c17 {
         a.swap(i - 1, j);
         a[i..].reverse();
         true
+    }
+
+    // ---- laws of the specification on arbitrary decimals (beyond TLC's integer domain)
+    fn feed(xs: &[Decimal]) -> Result<DataSetSummary, String> {
+        let mut ds = DataSetSummary::default();
+        for x in xs {
+            catch(|| ds.update(*x)).map_err(|p| format!("DataSetSummary::update({x}) panicked: {p}"))?;
+        }
+        Ok(ds)
+    }
+    /// |a - b| <= 1e-18 * max(1, scale)
+    fn near(a: Decimal, b: Decimal, scale: Decimal, what: &str) -> Result<(), String> {
+        let tol = Decimal::new(1, 18) * scale.max(Decimal::ONE);
+        if (a - b).abs() > tol { Err(format!("{what}: {a} vs {b} (tolerance {tol})")) } else { Ok(()) }
+    }
+    fn laws_of(xs: &[Decimal], perm: &[usize], shift: Decimal) -> Result<(), String> {
+        let m = xs.iter().map(|x| x.abs()).max().unwrap_or(Decimal::ONE).max(shift.abs());
+        let (m1, m2) = (m, m * m);
+        let a = feed(xs)?;
+        // VarNonNeg, MeanInRange, std_dev^2 = variance, count
+        if a.count != Decimal::from(xs.len() as u64) {
+            return Err(format!("count: {} for {} values", a.count, xs.len()));
+        }
+        if a.dispersion.variance < Decimal::ZERO {
+            return Err(format!("VarNonNeg: variance {}", a.dispersion.variance));
+        }
+        if a.mean < a.dispersion.range.low || a.mean > a.dispersion.range.high {
+            return Err(format!("MeanInRange: mean {} outside [{}, {}]", a.mean, a.dispersion.range.low, a.dispersion.range.high));
+        }
+        let (lo, hi) = (xs.iter().min().unwrap(), xs.iter().max().unwrap());
+        if a.dispersion.range.low != *lo || a.dispersion.range.high != *hi {
+            return Err(format!("range: [{}, {}] for data in [{lo}, {hi}]", a.dispersion.range.low, a.dispersion.range.high));
+        }
+        near(a.dispersion.std_dev * a.dispersion.std_dev, a.dispersion.variance, m2, "std_dev^2 = variance")?;
+        near(a.mean * a.count, a.sum, m1 * a.count, "mean * count = sum")?;
+        if lo == hi {
+            near(a.dispersion.variance, Decimal::ZERO, Decimal::ONE, "VarZeroIffConstant")?;
+        }
+        // OrderFreeC17: another arrival order of the same multiset
+        let p: Vec<Decimal> = perm.iter().map(|k| xs[*k]).collect();
+        let b = feed(&p)?;
+        if b.count != a.count || b.dispersion.range != a.dispersion.range {
+            return Err(format!("OrderFree: count/range differ between arrival orders: {:?} vs {:?}", a.dispersion.range, b.dispersion.range));
+        }
+        near(b.sum, a.sum, m1, "OrderFree: sum")?;
+        near(b.mean, a.mean, m1, "OrderFree: mean")?;
+        near(b.dispersion.variance, a.dispersion.variance, m2, "OrderFree: variance")?;
+        // ShiftScale: x + c keeps the variance and shifts the mean; -2x scales them by 4 and -2
+        let sh: Vec<Decimal> = xs.iter().map(|x| x + shift).collect();
+        let c = feed(&sh)?;
+        near(c.dispersion.variance, a.dispersion.variance, m2, "ShiftScale: variance of x + c")?;
+        near(c.mean, a.mean + shift, m1, "ShiftScale: mean of x + c")?;
+        let sc: Vec<Decimal> = xs.iter().map(|x| x * Decimal::from(-2)).collect();
+        let d = feed(&sc)?;
+        near(d.dispersion.variance, a.dispersion.variance * Decimal::from(4), m2 * Decimal::from(4), "ShiftScale: variance of -2x")?;
+        near(d.mean, a.mean * Decimal::from(-2), m1 * Decimal::TWO, "ShiftScale: mean of -2x")?;
+        Ok(())
+    }
+
+    pub fn laws(args: &Args) {
+        let mut res = Results::new(args.req("out"));
+        let mut cases: Vec<(Vec<Decimal>, Vec<usize>, Decimal)> = vec![];
+        if args.cmd == "laws" {
+            for c in read_ndjson(args.req("in")) {
+                let d = |v: &Value| Decimal::from_str(v.as_str().unwrap_or("x")).unwrap_or_else(|_| usage("bad decimal"));
+                cases.push((c["xs"].as_array().unwrap().iter().map(d).collect(),
+                            c["perm"].as_array().unwrap().iter().map(|k| k.as_u64().unwrap() as usize).collect(), d(&c["shift"])));
+            }
+        } else {
+            let mut r = rng(args.u64("seed", 1));
+            for _ in 0..args.usize("steps", 2000) {
+                let n = r.random_range(1..=12);
+                // mixed magnitudes: mantissa up to 10^6 with 0..8 decimal places, repeats, constants
+                let draw = |r: &mut rand::rngs::StdRng| Decimal::new(r.random_range(-1_000_000i64..=1_000_000), r.random_range(0..=8));
+                let constant = r.random_range(0..12) == 0;
+                let first = draw(&mut r);
+                let mut xs = vec![first];
+                while xs.len() < n {
+                    let x = if constant { first } else if r.random_range(0..4) == 0 { xs[r.random_range(0..xs.len())] } else { draw(&mut r) };
+                    xs.push(x);
+                }
+                let mut perm: Vec<usize> = (0..n).collect();
+                perm.shuffle(&mut r);
+                let shift = draw(&mut r);
+                cases.push((xs, perm, shift));
+            }
+        }
+        for (n, (xs, perm, shift)) in cases.iter().enumerate() {
+            res.steps += 4 * xs.len() as u64;
+            let shown = json!({"xs": xs.iter().map(|x| x.to_string()).collect::<Vec<_>>(), "perm": perm, "shift": shift.to_string()});
+            match laws_of(xs, perm, *shift) {
+                Ok(()) => res.ok(n, n as u64, json!({})),
+                Err(e) => res.fail(n, n as u64, 0, e, shown, json!("none"), json!({})),
+            }
+        }
+        let (scn, failed, steps) = (res.scenarios, res.failed, res.steps);
+        res.out.finish();
+        println!("{}", json!({"datasets": scn, "failed": failed, "updates": steps}));
     }
 
     pub fn replay(args: &Args) {
